@@ -414,7 +414,8 @@ func TestC04(t *testing.T) {
 			}
 			m.DurationDays = rapid.SampledFrom([]int64{1, 29, 30, 30, 31, 60, 365, 366, 730, 3650, 106751, 106752, 9223372036854775807 / 24}).Draw(rt, "days")
 			m.Bytes = rapid.SampledFrom([]int64{999_999_999, 1_000_000_000, 3_000_000_000, 1_000_000_000_000, 3_000_000_000_000, 4_999_000_000_000, 5_000_000_000_000, 19_999_000_000_000, 20_000_000_000_000, 50_000_000_000_000}).Draw(rt, "bytes")
-			refs := []string{"", "", creator.Bech, chain.Acc(2).Bech, chain.Acc(2).Bech, chain.Acc(4).Bech, "refer2.jkl", "refer2.jkl", "refer0.jkl", "unknown.jkl", "junk", polAddr, feeCollectorAddr}
+			refs := []string{"", "", creator.Bech, chain.Acc(2).Bech, chain.Acc(2).Bech, chain.Acc(4).Bech, "refer2.jkl", "refer2.jkl", "refer0.jkl", "REFER0.jkl", "unknown.jkl", "junk", polAddr, feeCollectorAddr,
+				strings.ToUpper(creator.Bech), strings.ToUpper(chain.Acc(2).Bech)} // all-upper-case bech32 is a valid spelling of the same account
 			m.Referral = rapid.SampledFrom(refs).Draw(rt, "referral")
 			if follow > 0 && lastFor != "" { // follow-up on the plan bought last: upgrade / downgrade / renewal after expiry
 				m.ForAddress, m.PaymentDenom = lastFor, "ujkl"
